@@ -39,6 +39,8 @@ def install_walker_env(ctx, eng, nsources=1):
             it.attrs["pos"].v = i + 1
             st.ghost["cur_source"] = i
             st.ghost["walk_calls"] = 0
+            st.ghost["root_expr"] = it.attrs["items"][i].attrs["expr"]
+            st.ghost["root_kind"] = None
             return Outcome(AggV("Option", 1, [it.attrs["items"][i]], "Some"), events=[Event("source", [i], None)])
         return Outcome(AggV("Option", 0, [], "None"))
     S(r"^<std::vec::IntoIter<PathBuf> as Iterator>::next$", s_vnext)
@@ -157,9 +159,10 @@ def install_walker_env(ctx, eng, nsources=1):
         st.ghost["walk_calls"] = n + 1
         root = it.attrs["root"]
         none = AggV("Option", 0, [], "None")
+        first_of_two = st.ghost.get("nsources", 1) > 1 and st.ghost.get("cur_source", 0) == 0
         if n == 0:
             cands = [("root", root)]
-        elif n == 1 and st.ghost.get("root_kind") == "Dir":
+        elif n == 1 and st.ghost.get("root_kind") == "Dir" and not first_of_two:
             cands = [("desc", ("join", root, ("rel",))), None]
         else:
             return Outcome(none, events=[Event("walk-end", [], None)])
@@ -226,9 +229,12 @@ def install_walker_env(ctx, eng, nsources=1):
     def s_ftype(eng, st, callee, args, dty):
         of = args[0].attrs.get("of")
         outs = []
+        first_of_two = st.ghost.get("nsources", 1) > 1 and st.ghost.get("cur_source", 0) == 0
         for k in KINDS:
             if k == "Symlink" and of and of[0] == "canon":
                 continue    # canonicalize() resolves every link: its result is never a symlink
+            if first_of_two and k not in ("File", "Dir"):
+                continue    # two-source mode: the first source is kept simple, the second one is explored fully
             def eff(eng, s2, a2, k=k, of=of):
                 if of == s2.ghost.get("root_expr") or (of and of[0] == "canon" and of[1] == s2.ghost.get("root_expr")):
                     s2.ghost["root_kind"] = k
@@ -310,15 +316,24 @@ def expected_target(eng, p, src_expr, rel_expr, cv, fsm):
 
 
 def lemma_tree_walker(ctx):
-    eng = ctx.engine("libxcp", loop_bound=4, timeout_s=1500)
-    eng.max_paths = 200000
+    _walker(ctx, [("src",)])
+
+
+def lemma_tree_walker_two_sources(ctx):
+    """two sources: the per-source constants (target base, .gitignore matcher) are recomputed for the second source"""
+    _walker(ctx, [("src0",), ("src1",)])
+
+
+def _walker(ctx, src_exprs):
+    eng = ctx.engine("libxcp", loop_bound=4 + len(src_exprs), timeout_s=3000)
+    eng.max_paths = 400000
     install_walker_env(ctx, eng)
     fn = fn_named(eng.funcs, "tree_walker")
     st = State()
     cfg, cv = mk_config(ctx, eng, st)
-    src = P(("src",))
-    st.ghost["root_expr"] = ("src",)
-    sources = OpaqueV("Vec<PathBuf>", None, {"items": [src]})
+    st.ghost["root_expr"] = src_exprs[0]
+    st.ghost["nsources"] = len(src_exprs)
+    sources = OpaqueV("Vec<PathBuf>", None, {"items": [P(x) for x in src_exprs]})
     dest = RefV(Cell(P(("dest",), "Path")))
     tx = OpaqueV("crossbeam_channel::Sender<Operation>", "work_tx")
     upd = mk_arc(OpaqueV("dyn StatusUpdater", "updater"), "Arc<dyn StatusUpdater>", "stat", rc=2)
@@ -339,10 +354,12 @@ def lemma_tree_walker(ctx):
         nd = len([e for e in ev if e.name == "sender-dropped"])
         (ctx.passed if nd == 1 else ctx.fail)("C07: the work queue's only sender is dropped when the walker returns (Ok or Err)", "%d drops; %s" % (nd, names[-5:]))
         # split the trace into per-entry segments
-        segs, cur = [], None
+        segs, cur, cur_src = [], None, src_exprs[0]
         for e in ev:
+            if e.name == "source":
+                cur_src = src_exprs[e.args[0]]
             if e.name == "walk-entry":
-                cur = {"which": e.args[0], "expr": e.args[1], "ok": e.ret == "ok", "ev": []}
+                cur = {"which": e.args[0], "expr": e.args[1], "ok": e.ret == "ok", "ev": [], "src": cur_src}
                 segs.append(cur)
             elif e.name in ("walk-end", "walk-filtered"):
                 if e.name == "walk-filtered" and cur is not None:
@@ -366,7 +383,7 @@ def lemma_tree_walker(ctx):
             ctx.lemma(eng, "C17: with --gitignore every walked entry is put to the matcher", p.pc, z3.Not(git))
         for e in gi_build:
             root, files = e.args
-            if root != ("src",) or files != (("join", ("src",), ("str", ".gitignore")),):
+            if root not in src_exprs or files != (("join", root, ("str", ".gitignore")),):
                 ctx.fail("C17: the matcher is built from <source>/.gitignore with the source as its root", repr(e.args))
             else:
                 ctx.passed("C17: the matcher is built from <source>/.gitignore with the source as its root")
@@ -374,7 +391,7 @@ def lemma_tree_walker(ctx):
             m = [e for e in seg["ev"] if e.name == "gi.matched"]
             if m:
                 e = m[0]
-                if e.args[0] != seg["expr"] or e.args[2] != ("src",):
+                if e.args[0] != seg["expr"] or e.args[2] != seg["src"]:
                     ctx.fail("C17: the matcher is asked about the walked entry's own path", repr(e.args))
                 isd = [x for x in seg["ev"] if x.name == "Path::is_dir" and x.args[0] == seg["expr"]]
                 if not isd or not isinstance(e.args[1], BoolV):
@@ -409,7 +426,7 @@ def lemma_tree_walker(ctx):
             elif kind:
                 ctx.lemma(eng, "C13: with --dereference every walked path is resolved before it is classified", p.pc, z3.Not(deref))
             rel = ("empty",) if seg["which"] == "root" else ("rel",)
-            exp = expected_target(eng, p, ("src",), rel, cv, fsm)
+            exp = expected_target(eng, p, seg["src"], rel, cv, fsm)
 
             def check_target(texpr, what):
                 conds = [c for c, t in exp if t == texpr]
@@ -498,7 +515,7 @@ def lemma_tree_walker(ctx):
                     ctx.fail("C14: block devices and unknown kinds are not copied", str([e.name for e in sev]))
                 (ctx.passed if is_err(p.ret) else ctx.fail)("C14: block devices and unknown kinds make the run fail", str(names[-5:]))
         # C02/C06: a directory is created before anything beneath it is queued (program order, root before descendant)
-        okseg = [s for s in segs if s["ok"] and not s.get("filtered")]
+        okseg = [s for s in segs if s["ok"] and not s.get("filtered") and s["src"] == src_exprs[-1]]
         if len(okseg) == 2:
             first = [e for e in okseg[0]["ev"] if e.name == "create_dir_all"]
             second = [e for e in okseg[1]["ev"] if e.name in ("op", "create_dir_all")]
@@ -524,4 +541,8 @@ def lemma_tree_walker(ctx):
                              key="walker:deref-does-not-follow-dir-links")
     for k in KINDS + ["collision", "nested"]:
         (ctx.passed if k in seen else ctx.fail)("witness: %s" % k, str(sorted(seen)))
+    if len(src_exprs) > 1:
+        ctx.bounds = ("two sources: the first restricted to its root entry (file or directory), the second explored fully (root + one arbitrary "
+                      "descendant, all kinds, all flags, every call may fail)")
+        return
     ctx.bounds = "one source; its root entry and one arbitrary descendant (per-entry induction: the loop carries no state but the per-source constants); all 8 kinds, all flag values, every call may fail; abstract (structural) paths"
